@@ -168,11 +168,13 @@ def _init_again(ctx, p):
     g = Gen(p["gen"])
     how = p["how"]
     inst = Installation.simple(g.n, n_acs=2, zones_per_ac=2)
-    t2 = ctx.real("t2", 6.5, 30)
+    t2 = ctx.real("t2", 6.5, 30) if how != "slow_connect" else ctx.real("t2", 5.5, 30)     # slow connect: also while it is still pending
+    if how == "slow_connect":
+        ctx.assume(t2 != 9)
     step = STEPS[ctx.choice("silent_step", 6)] if how == "after_silence" else None
     with ApiRig(ctx, g, inst) as rig:
         con = rig.console
-        rig.net.on_connect = lambda net, n: ("accept", 6.0 if how == "slow_connect" else 0)
+        rig.net.on_connect = lambda net, n: ("accept", 9.0 if how == "slow_connect" else 0)
         if step:
             con.silent.add(step)
         rig.start()
@@ -183,7 +185,7 @@ def _init_again(ctx, p):
         con.silent.clear()
         rig.init_result = None
         rig.start(at=t2)
-        rig.run(t2 + 6.0)
+        rig.run(t2 + 6.0 if how != "slow_connect" else t2 + 10.0)
         detail = {"how": how, "silent_step": step, "second": rig.init_result, "requests": con.kinds()[-8:]}
         ctx.observe("second", rig.init_result)
         ctx.check(rig.init_result is True and rig.at.initialised, "success.returns_true", detail=detail)
